@@ -126,6 +126,28 @@ ADDED3 = {
 for _k, _v in ADDED3.items():
     _t = CHECKS[_k]
     CHECKS[_k] = (_t[0] + " " + _v, _t[1], _t[2])
+# round 7 (DESIGN.md 12.4)
+ADDED4 = {
+ "C01": "Round 7: literal variables defined inside a rule / block / when block as right-hand sides (read as the literal by the reference interpreter); rule guards that differ only inside a filter.",
+ "C04": "Round 7: the same pool; a bare rule reference before / after every keyword-prefixed key (an order that does not parse while another does is a violation).",
+ "C05": "Round 7: mixed in-process history with colours forced on (console, structured, console again); several different invalid expectation words in one test case.",
+ "C06": "Round 7: a rules file that is not UTF-8 (alone / before / after passing and failing rules files x 9 modes); dangling symbolic links; test directories whose rules files are called r1 / r10.",
+ "C07": "Round 7: C0 control characters in values, messages and keys (the JUnit reader enforces XML 1.0's Char production); documents of Terraform-plan and CloudFormation shape.",
+ "C08": "Round 7: function-call variable cycles at every scope.",
+ "C09": "Round 7: key filters and filters over [*]-selected scalars; oracles that do not go through the record: messages written inside filters, and messages of satisfied rule references, are never listed.",
+ "C10": "Round 7: key interpolation; block-scalar layouts and number-like strings.",
+ "C11": "Round 7: JSON \\u escapes (BMP and surrogate pairs) and the number -0.",
+ "C12": "Round 7: rules spelled in another key convention than the documents; rules files of one base name in several directories.",
+ "C13": "Round 7: null is unordered; neighbouring integers beyond 2^53.",
+ "C14": "Round 7: end-of-text variants (no final line break, trailing comment); [n] against .n up to i64::MAX.",
+ "C15": "Round 7: the guard of the block that holds an inner definition sees the outer variable (five shapes, renaming oracle).",
+ "C16": "Round 7: the validate command itself on number spellings.",
+ "C17": "Round 7: 27 YAML scalar spellings in parameter files with type probes; JUnit and SARIF modes.",
+ "C19": "Round 7: the value 0; the validate command on the written template as a second oracle.",
+}
+for _k, _v in ADDED4.items():
+    _t = CHECKS[_k]
+    CHECKS[_k] = (_t[0] + " " + _v, _t[1], _t[2])
 PENDING_REASON = "check under construction in this round (design in DESIGN.md section 5); not claimed until its quick tier runs clean on the unchanged tree"
 ALL = ["C%02d" % i for i in range(1, 20)]
 m = {
